@@ -12,10 +12,17 @@ def check(ctx):
     # (M) the channel protocol: OwnResponse / WrittenOnce / ResultsSane with responding terminals
     cfgs = [dict(Callers="{1, 2}", MaxMsgs=1, CapMsg=2, CapActive=1, CapComplete=1, CapOp=2, TermResponds="TRUE")]
     if thorough:
-        cfgs.append(dict(Callers="{1, 2, 3}", MaxMsgs=1, CapMsg=1, CapActive=2, CapComplete=2, CapOp=2, TermResponds="TRUE"))
+        cfgs.append(dict(Callers="{1, 2}", MaxMsgs=2, CapMsg=1, CapActive=2, CapComplete=2, CapOp=1, TermResponds="TRUE", SerialMod=4))
     for c in cfgs:
         consts = dict(c); consts["Protocol"] = '"fixed2"'; consts.setdefault("SerialMod", 2); consts["Identity"] = "TRUE"
         ctx.tlc("MC_Conn", constants=consts, workers=14, heap="10g", timeout=3000, name="MC_Conn_%s" % json.dumps(c, sort_keys=True))
+    # three callers: the invariants only (MC_Conn_safety.cfg; the liveness graph of three callers does not finish in an hour)
+    safety = [dict(Callers="{1, 2, 3}", MaxMsgs=1, CapMsg=1, CapActive=2, CapComplete=2, CapOp=2, TermResponds="TRUE", SerialMod=2)]
+    if thorough:
+        safety.append(dict(Callers="{1, 2, 3}", MaxMsgs=2, CapMsg=1, CapActive=2, CapComplete=1, CapOp=2, TermResponds="TRUE", SerialMod=4))
+    for c in safety:
+        consts = dict(c); consts["Protocol"] = '"fixed2"'; consts["Identity"] = "TRUE"
+        ctx.tlc("MC_Conn", cfg="MC_Conn_safety", constants=consts, workers=14, heap="10g", timeout=3000, name="MC_Conn_safety_%s" % json.dumps(c, sort_keys=True))
     # (I->S) concurrent callers against scripted terminals
     tr = os.path.join(ctx.scratch, "c12_live.ndjson")
     rc, err, events = lc.run_live(ctx, ["live-c12", 16 if thorough else 8, 12 if thorough else 5, tr], timeout=1800)
